@@ -879,6 +879,8 @@ func (i *Interp) call(caller *frame, fn value, args []value) value {
 		i.abort(stInconclusive, "call of unsupported function value: "+fn.why)
 	case nativeFunc:
 		return fn(i, caller, args)
+	case *boundMethod:
+		return i.callSSA(caller, fn.fn, append([]value{fn.recv}, args...), nil)
 	}
 	panic(fmt.Sprintf("cannot call %T", fn))
 }
